@@ -19,7 +19,8 @@ def ndigitsAux : Nat → Nat → Nat
   | 0, _ => 1
   | f+1, n => if n < 10 then 1 else ndigitsAux f (n / 10) + 1
 
-def ndigits (n : Nat) : Nat := ndigitsAux 128 n
+/-- fuel `n` is more than enough (`n / 10 < n`); no bound on the size of `n` is needed -/
+def ndigits (n : Nat) : Nat := ndigitsAux n n
 
 /-- `char`: characteristic of log10 of the raw value (`len(x.BigInt().Text(10)) - 1`; Go panics on 0) -/
 def char (x : Int) : Int := (ndigits x.toNat : Int) - 1
